@@ -2,6 +2,7 @@
 //! orders, separated by stall points, and report what they see. The generator's model says what
 //! each side must see if (and only if) every captured value was deep-copied at spawn (C08).
 
+use super::tytree::{Gen, Ty, Val};
 use super::{Projection, Workload};
 use crate::rng::Rng;
 
@@ -21,6 +22,9 @@ enum Model {
     ArrRec(Vec<(String, Vec<i64>)>),
     /// struct containing a struct containing an array
     Outer { tag: String, name: String, vals: Vec<i64> },
+    /// a random shape from the type algebra (arrays, options, tuples, structs, enums nested up
+    /// to three levels)
+    Tree { ty: Ty, val: Val, init: String, show_fn: String },
 }
 
 const HELPERS: &str = r#"use simhost
@@ -128,8 +132,15 @@ fn js(a: &[String]) -> String {
 }
 
 impl Model {
-    fn fresh(rng: &mut Rng) -> Model {
-        match rng.below(12) {
+    fn fresh(rng: &mut Rng, g: &mut Gen) -> Model {
+        match rng.below(20) {
+            12..=19 => {
+                let depth = rng.range(1, 3) as u32;
+                let ty = g.mutable_ty(rng, depth);
+                let (val, init) = g.value(rng, &ty);
+                let show_fn = g.show_fn(&ty);
+                Model::Tree { ty, val, init, show_fn }
+            }
             10 => Model::ArrRec(vec![("r0".into(), vec![1]), ("q1".into(), vec![2, 3])]),
             11 => Model::Outer {
                 tag: "o1".into(),
@@ -166,6 +177,14 @@ impl Model {
             Model::Int(_) => "int",
             Model::ArrRec(_) => "array<struct{string,array<int>}>",
             Model::Outer { .. } => "struct{string,struct{string,array<int>}}",
+            Model::Tree { .. } => "tree",
+        }
+    }
+
+    fn describe(&self) -> String {
+        match self {
+            Model::Tree { ty, .. } => ty.describe(),
+            other => other.kind().to_string(),
         }
     }
 
@@ -220,6 +239,7 @@ impl Model {
                     .collect::<Vec<_>>()
                     .join(", ")
             ),
+            Model::Tree { ty, init, .. } => format!("var {v}: {} = {init}\n", ty.name()),
             Model::Outer { tag, name, vals } => format!(
                 "var {v} = Outer(\"{}\" .. {}, Rec(\"{}\" .. {}, [{}]))\n",
                 &tag[..1],
@@ -245,6 +265,7 @@ impl Model {
             Model::Int(_) => format!("(\"\" .. {v})"),
             Model::ArrRec(_) => format!("show_recs({v})"),
             Model::Outer { .. } => format!("show_outer({v})"),
+            Model::Tree { show_fn, .. } => format!("{show_fn}({v})"),
         }
     }
 
@@ -262,14 +283,19 @@ impl Model {
             Model::Int(n) => n.to_string(),
             Model::ArrRec(rs) => rs.iter().map(|(name, vals)| format!("[{name}:{}]", ji(vals))).collect(),
             Model::Outer { tag, name, vals } => format!("{tag}/{name}:{}", ji(vals)),
+            Model::Tree { val, .. } => val.show(),
         }
     }
 
     /// one mutation through `v`; `in_task`: closures cannot be mutated from inside the task
     /// (the task only holds the closure, not the array it captured)
-    fn mutate(&mut self, rng: &mut Rng, v: &str, tag: &str, in_task: bool) -> String {
+    fn mutate(&mut self, rng: &mut Rng, g: &mut Gen, v: &str, tag: &str, in_task: bool) -> String {
         let n = rng.range(10, 99) as i64;
         match self {
+            Model::Tree { ty, val, .. } => match g.mutate_fn(rng, ty, val, tag) {
+                Some(f) => format!("{f}({v})\n"),
+                None => String::new(),
+            },
             Model::ArrInt(a) => {
                 if rng.chance(1, 2) && !a.is_empty() {
                     a[0] = n;
@@ -377,10 +403,11 @@ impl Model {
 
 pub fn generate(rng: &mut Rng) -> Workload {
     let n_caps = rng.range(1, 4) as usize;
-    let mut src = String::from(HELPERS);
+    let mut g = Gen::new();
+    let mut src = String::new();
     src.push_str("let go: channel<int> = channel()\n");
     src.push_str("let done: channel<string> = channel()\n");
-    let mut models: Vec<Model> = (0..n_caps).map(|_| Model::fresh(rng)).collect();
+    let mut models: Vec<Model> = (0..n_caps).map(|_| Model::fresh(rng, &mut g)).collect();
     let names: Vec<String> = (0..n_caps).map(|i| format!("v{i}")).collect();
     for (m, v) in models.iter().zip(&names) {
         src.push_str(&m.decl(v));
@@ -388,7 +415,7 @@ pub fn generate(rng: &mut Rng) -> Workload {
     // mutations before the spawn are part of the snapshot
     for (m, v) in models.iter_mut().zip(&names) {
         if rng.chance(1, 2) {
-            src.push_str(&m.mutate(rng, v, "P", false));
+            src.push_str(&m.mutate(rng, &mut g, v, "P", false));
         }
     }
     let mut task_models = models.clone();
@@ -416,7 +443,7 @@ pub fn generate(rng: &mut Rng) -> Workload {
     }
     src.push_str(&format!("    let before = {}\n", show_all(&task_models)));
     for (m, v) in task_models.iter_mut().zip(&names) {
-        for line in m.mutate(rng, v, "T", true).lines() {
+        for line in m.mutate(rng, &mut g, v, "T", true).lines() {
             src.push_str(&format!("    {line}\n"));
         }
     }
@@ -444,7 +471,7 @@ pub fn generate(rng: &mut Rng) -> Workload {
         }
         src.push_str(&format!("    let before = {}\n", show_all(&second_models)));
         for (m, v) in second_models.iter_mut().zip(&names) {
-            for line in m.mutate(rng, v, "U", true).lines() {
+            for line in m.mutate(rng, &mut g, v, "U", true).lines() {
                 src.push_str(&format!("    {line}\n"));
             }
         }
@@ -459,7 +486,7 @@ pub fn generate(rng: &mut Rng) -> Workload {
         src.push_str("pause()\n");
     }
     for (m, v) in models.iter_mut().zip(&names) {
-        src.push_str(&m.mutate(rng, v, "M", false));
+        src.push_str(&m.mutate(rng, &mut g, v, "M", false));
     }
     let main_view = want_all(&models);
     src.push_str(&format!("let main_view = {}\n", show_all(&models)));
@@ -479,6 +506,10 @@ pub fn generate(rng: &mut Rng) -> Workload {
                 Model::Int(_) => format!("{v} = 0\n"),
                 Model::ArrRec(_) => format!("{v} = [Rec(\"z\" .. 0, [0])]\n"),
                 Model::Outer { .. } => format!("{v} = Outer(\"z\" .. 0, Rec(\"z\" .. 1, [0]))\n"),
+                Model::Tree { ty, .. } => {
+                    let (_, fresh_expr) = g.value(rng, ty);
+                    format!("{v} = {fresh_expr}\n")
+                }
             };
             src.push_str(&fresh);
         }
@@ -495,11 +526,12 @@ pub fn generate(rng: &mut Rng) -> Workload {
     src.push_str("2\n");
 
     let task_after = want_all(&task_models);
+    let src = format!("{HELPERS}{}\n{src}", g.decls);
     let mut w = Workload::new(
         "cap",
         format!(
             "captures [{}]{}{}{}",
-            models.iter().map(|m| m.kind()).collect::<Vec<_>>().join(", "),
+            models.iter().map(|m| m.describe()).collect::<Vec<_>>().join(", "),
             if task_first { " task-mutates-first" } else { " main-mutates-first" },
             if task_collects { " task-collects" } else { "" },
             if main_drops { " spawner-drops-and-collects" } else { "" }
